@@ -158,6 +158,8 @@ class Parser:
             return A
         if name == "Vec" and args == [("N", "BitVector")]:
             return ("N", "BvArray")
+        if name == "Vec" and args == [("T", [W, U])]:
+            return ("N", "WUPairs")
         return ("N", name)
 
     # ---- patterns
@@ -254,10 +256,10 @@ class Parser:
             if it[0] == "mcall" and it[2] == "iter" and not it[3] and not rev:
                 b = self.block()
                 return ("for", var if var is not None else var_pat, ("int", 0, None), ("arrlen", it[1]), False, b, it[1]), False
-            if it[0] == "mcall" and it[2] == "iter_mut" and not it[3] and not rev and var is not None:
+            if it[0] == "mcall" and it[2] == "iter_mut" and not it[3] and not rev:
                 # `for x in arr.iter_mut() { … *x = e … }`: the loop over the indices; `*x = e` writes element `i`
                 b = self.block()
-                return ("for", var, ("int", 0, None), ("arrlen", it[1]), False, b, ("itermut", it[1])), False
+                return ("for", var if var is not None else var_pat, ("int", 0, None), ("arrlen", it[1]), False, b, ("itermut", it[1])), False
             if it[0] != "range" and not rev and it[0] in ("mcall", "call", "path"):
                 # `for pat in <iterator expression>`: allowed when the expression is a list-modelled iterator (checked at emission)
                 b = self.block()
@@ -300,10 +302,11 @@ class Parser:
     def expr(self, lvl=0, nostruct=False):
         if lvl == 0:
             e = self.expr(1, nostruct)
-            if self.at("..") and self.peek()[0] == "op":
+            if (self.at("..") or self.at("..=")) and self.peek()[0] == "op":
+                incl = self.at("..=")
                 self.eat()
                 r = self.expr(1, nostruct)
-                return ("range", e, r)
+                return ("range", e, ("incl", r) if incl else r)
             return e
         if lvl - 1 >= len(self.PREC):
             return self.cast(nostruct)
@@ -888,6 +891,11 @@ class Emitter:
                 t = self.fresh()
                 pre.append("let %s ← getC %s %s" % (t, base, i))
                 return t, W
+            if bty == ("N", "WUPairs"):
+                i, _ = self.expr(e[2], pre, U)
+                t = self.fresh()
+                pre.append("let %s ← getWU %s %s" % (t, base, i))
+                return t, ("T", [W, U])
             key, extra = self.callee_key(e)
             return self.call(key, [], pre, want, extra_exprs=extra)
         if k == "mcall":
@@ -1122,6 +1130,18 @@ class Emitter:
             # `pairs.iter().map(|(a, b)| body)`: the mapped items as a list (`mapM`: the body may fault).  The Rust iterator is
             # lazy; the consumer sees the items in the same order, and a faulting body faults the whole.
             arrv, arrt = self.expr(recv[1], pre)
+            if arrt == A and args[0][1][0][0] == "pvar":
+                # `words.iter().map(|x| pure body)`: the mapped words as a list
+                cl = args[0]
+                saved = dict(self.env)
+                vn = cl[1][0][1]
+                self.env[vn] = (lname(vn), W)
+                p2 = []
+                bv, bt = self.expr(cl[2], p2, None)
+                self.env = saved
+                if p2 or bt != W:
+                    raise Unsupported("`.iter().map(..)` over words with an effectful or non-word body")
+                return "(%s.toList.map (fun %s => %s))" % (arrv, lname(vn), bv), ("N", "WordListIter")
             if arrt != ("N", "SamplePairs"):
                 raise Unsupported("`.iter().map(..)` over %r" % (arrt,))
             cl = args[0]
@@ -1141,6 +1161,39 @@ class Emitter:
             t = self.fresh()
             pre.append("let %s ← (%s).toList.mapM (fun x_ => do %s; pure %s)" % (t, arrv, body, b))
             return t, ("N", "ListIter")
+        if name == "sort_unstable_by_key" and len(args) == 1 and args[0][0] == "closure" and len(args[0][1]) == 1:
+            arrv, arrt = self.expr(recv, pre)
+            if arrt != ("N", "WUPairs"):
+                raise Unsupported("sort_unstable_by_key on %r" % (arrt,))
+            cl = args[0]
+            saved = dict(self.env)
+            binds = []
+            self.bind_pat(cl[1][0], "x_", ("T", [W, U]), binds, "")
+            p2 = []
+            kv, kt = self.expr(cl[2], p2, None)
+            self.env = saved
+            if p2:
+                raise Unsupported("effectful sort key")
+            key = "(%s).toNat" % kv if kt == W else kv
+            self.assign_place(recv, "(sortByKeyWU %s (fun x_ => %s; %s))" % (arrv, "; ".join(l.strip() for l in binds), key), pre)
+            return "()", UNIT
+        if name == "collect" and not args and recv[0] == "mcall" and recv[2] == "map" and recv[1][0] == "mcall" and recv[1][2] == "into_iter":
+            arrv, arrt = self.expr(recv[1][1], pre)
+            cl = recv[3][0]
+            if arrt != ("N", "WUPairs") or cl[0] != "closure" or want != ("N", "IntVector"):
+                raise Unsupported("into_iter().map(..).collect() of %r into %r" % (arrt, want))
+            saved = dict(self.env)
+            binds = []
+            self.bind_pat(cl[1][0], "x_", ("T", [W, U]), binds, "")
+            p2 = []
+            bv, bt = self.expr(cl[2], p2, None)
+            self.env = saved
+            if p2 or bt != U:
+                raise Unsupported("collect of a non-usize / effectful map")
+            t = self.fresh()
+            # `FromIterator<usize> for IntVector`: the `usize` instance of the macro is the `u64` instance on the cast items
+            pre.append("let %s ← gen_IntVector_from_iter_u64 m cap (%s.toList.map (fun x_ => %s; BitVec.ofNat 64 %s))" % (t, arrv, "; ".join(l.strip() for l in binds), bv))
+            return t, ("N", "IntVector")
         v, ty = self.expr(recv, pre)
         if ty and ty[0] == "O" and name == "unwrap_or" and len(args) == 1:
             a, _ = self.expr(args[0], pre, ty[1])
@@ -1301,10 +1354,19 @@ class Emitter:
             nm, ty = self.env[place[1][0]]
             pre.append("let %s := %s" % (nm, val))
             if place[1][0] in getattr(self, "itermut", {}):
-                # the variable is `&mut arr[i]` of an `iter_mut()` loop: the element changes with it
-                arrplace, cnt = self.itermut[place[1][0]]
+                # the variable is `&mut arr[i]` (or a component of it) of an `iter_mut()` loop: the element changes with it
+                info = self.itermut[place[1][0]]
+                arrplace, cnt = info[0], info[1]
                 arrv, _ = self.expr(arrplace, [], None)
-                self.assign_place(arrplace, "%s.setIfInBounds %s %s" % (arrv, cnt, nm), pre)
+                elem = nm if len(info) == 2 else "(" + ", ".join(info[2]) + ")"
+                self.assign_place(arrplace, "%s.setIfInBounds %s %s" % (arrv, cnt, elem), pre)
+            return
+        if place[0] == "index":
+            arrv, aty = self.expr(place[1], [], None)
+            if aty not in (A, ("N", "WUPairs")):
+                raise Unsupported("indexed assignment into %r" % (aty,))
+            i, _ = self.expr(place[2], [], U)                              # evaluated already by the read of the same place
+            self.assign_place(place[1], "%s.setIfInBounds %s %s" % (arrv, i, val), pre)
             return
         if place[0] == "field" and not place[2].isdigit() and place[1] != ("path", ["self"]):
             # a field of a local struct value: rebuild the struct
@@ -1321,12 +1383,21 @@ class Emitter:
             if s[0] == "assign":
                 self.assigned_expr(s[3], acc)
                 p = s[1]
-                while p[0] in ("index", "paren") or (p[0] == "field" and p[1] != ("path", ["self"])):
+                while p[0] in ("index", "paren", "deref") or (p[0] == "field" and p[1] != ("path", ["self"])):
                     p = p[1]
                 if p[0] == "field" and p[1] == ("path", ["self"]):
                     acc.add("self_" + p[2])
                 elif p[0] == "path":
                     acc.add(self.env[p[1][0]][0] if p[1][0] in self.env else p[1][0])
+                    if p[1][0] in getattr(self, "itermut", {}):
+                        # a write through an `iter_mut()` reference also rewrites the array
+                        q = self.itermut[p[1][0]][0]
+                        while q[0] in ("index", "paren") or (q[0] == "field" and q[1] != ("path", ["self"])):
+                            q = q[1]
+                        if q[0] == "field" and q[1] == ("path", ["self"]):
+                            acc.add("self_" + q[2])
+                        elif q[0] == "path":
+                            acc.add(self.env[q[1][0]][0] if q[1][0] in self.env else q[1][0])
             elif s[0] == "expr":
                 self.assigned_expr(s[1], acc)
             elif s[0] == "while":
@@ -1697,10 +1768,9 @@ class Emitter:
             place = place[1]
         if place[0] == "deref" and place[1][0] == "path" and len(place[1][1]) == 1 and place[1][1][0] in getattr(self, "itermut", {}):
             # `*x = e` inside `for x in arr.iter_mut()`: element `i` of the array (and `x` itself) take the new value
-            arrplace, cnt = self.itermut[place[1][1][0]]
             if op != "=":
                 raise Unsupported("compound assignment through an `iter_mut()` reference")
-            r, _ = self.expr(rhs, pre, W)
+            r, _ = self.expr(rhs, pre, self.env[place[1][1][0]][1] if place[1][1][0] in self.env else W)
             self.assign_place(place[1], r, pre)
             return
         if place[0] == "index":
@@ -1719,6 +1789,23 @@ class Emitter:
                     raise Unsupported("compound assignment %s on an array element" % op)
                 new = "(%s %s %s)" % (cur, lean, r)
             self.assign_place(place[1], "%s.setIfInBounds %s %s" % (arr, i, new), pre)
+            return
+        if place[0] == "field" and place[2].isdigit() and place[1][0] == "index":
+            # `arr[i].k op= e`: the element is read ONCE, the component updated, the element written back
+            base, bty = self.expr(place[1], pre, None)
+            if not (bty and bty[0] == "T" and len(bty[1]) == 2):
+                raise Unsupported("assignment to a component of %r" % (bty,))
+            ci = int(place[2])
+            cty = bty[1][ci]
+            if op == "=":
+                v, _ = self.expr(rhs, pre, cty)
+            else:
+                saved = dict(self.env)
+                self.env["cur__"] = ("%s.%d" % (base, ci + 1), cty)
+                v, _ = self.binop(("bin", op[:-1], ("path", ["cur__"]), rhs), pre, cty)
+                self.env = saved
+            pair = "(%s, %s.2)" % (v, base) if ci == 0 else "(%s.1, %s)" % (base, v)
+            self.assign_place(place[1], pair, pre)
             return
         cur, ty = self.expr(place, [], None)
         if op == "=":
@@ -1962,7 +2049,21 @@ class Emitter:
         if arr is not None and arr[0] == "listiter":
             listiter, arr = True, arr[1]
         pre = []
-        a, _ = self.expr(lo, pre, U)
+        wloop = False
+        if arr is None:
+            incl = hi[0] == "incl"
+            hi_e = hi[1] if incl else hi
+            try:
+                _, hty = self.expr(hi_e, [], None)
+            except Unsupported:
+                hty = None
+            wloop = hty == W
+        if wloop:
+            # a range over `u64` values: the counter runs over ℕ (an inclusive range up to `u64::MAX` does not overflow in Rust)
+            a0, _ = self.expr(lo, pre, W)
+            a = "(%s).toNat" % a0
+        else:
+            a, _ = self.expr(lo, pre, U)
         if arr is not None:
             if arr == ("path", ["self"]) and self.cfg.get("self", {}).get("rust"):
                 arrv, arrt = (self.self_value() if self.selfmut else self.cfg["self"]["var"]), ("N", self.cfg["self"]["rust"])
@@ -1975,7 +2076,7 @@ class Emitter:
                 pre.append("let %s := %s" % (t_, arrv))               # the iterator is evaluated once, before the loop
                 arrv = t_
                 b = "%s.length" % arrv
-            elif arrt in (("N", "SamplePairs"), ("N", "BvArray")):
+            elif arrt in (("N", "SamplePairs"), ("N", "BvArray"), ("N", "WUPairs")):
                 b = "%s.size" % arrv
             elif arrt == ("N", "IntVector"):
                 # `for x in v.iter()` over an IntVector: `AccessIter` yields `v.get(i)` for `i` in `0..v.len()`
@@ -1985,7 +2086,10 @@ class Emitter:
             else:
                 b = "%s.size" % arrv
         else:
-            b, _ = self.expr(hi, pre, U)
+            b0, _ = self.expr(hi_e, pre, W if wloop else U)
+            b = "(%s).toNat" % b0 if wloop else b0
+            if incl:
+                b = "(%s + 1)" % b
         self.flush(pre, out, ind)
         self.nloops += 1
         n = self.nloops
@@ -2001,7 +2105,18 @@ class Emitter:
         if not rev:
             nxt = "(" + ", ".join(["%s + 1" % cnt] + vs) + ")" if vs else "(%s + 1)" % cnt
             out.append(ind + "    if (decide (%s < for_hi%d)) then do" % (cnt, n))
-            if arr is not None and arrt == ("N", "PairListIter"):
+            if arr is not None and arrt == ("N", "WUPairs"):
+                if isinstance(var, tuple):
+                    names = []
+                    for q in var[1]:
+                        nm = lname(q[1]) if q[1] != "_" else "wild%d" % n
+                        names.append(nm)
+                    out.append(ind + "      let (%s) := (%s.getD %s ((0 : Word), 0))" % (", ".join(names), arrv, cnt))
+                    for q, nm, t_ in zip(var[1], names, [W, U]):
+                        self.env[q[1]] = (nm, t_)
+                else:
+                    out.append(ind + "      let %s := %s.getD %s ((0 : Word), 0)" % (lname(var), arrv, cnt))
+            elif arr is not None and arrt == ("N", "PairListIter"):
                 if isinstance(var, tuple):
                     self.bind_pat(var, "(%s.getD %s (0, 0))" % (arrv, cnt), ("T", [U, U]), out, ind + "      ")
                 else:
@@ -2023,6 +2138,8 @@ class Emitter:
                 out.append(ind + "      let %s ← gen_IntVector_get m %s %s" % (lname(var), arrv, cnt))
             elif arr is not None:
                 out.append(ind + "      let %s := rd %s %s" % (lname(var), arrv, cnt))      # the element (in range: %s < size)
+            elif wloop:
+                out.append(ind + "      let %s := (BitVec.ofNat 64 %s)" % (lname(var), cnt))
             else:
                 out.append(ind + "      let %s := %s" % (lname(var), cnt))
         else:
@@ -2030,16 +2147,20 @@ class Emitter:
             out.append(ind + "    if (decide (for_lo%d < %s)) then do" % (n, cnt))
             out.append(ind + "      let %s := %s - 1" % (lname(var), cnt))
         if not isinstance(var, tuple):
-            vty = U
+            vty = W if wloop else U
             if arr is not None:
                 vty = ("T", [U, U]) if arrt in (("N", "SamplePairs"), ("N", "PairListIter")) else (("N", "BitVector") if arrt == ("N", "BvArray") else (U if arrt == ("N", "ListIter") else (B if arrt == ("N", "BoolListIter") else W)))
             self.env[var] = (lname(var), vty)
         self.loop = nxt
         saved_itermut = getattr(self, "itermut", {})
         if itermut is not None:
-            if arrt not in (A, ("N", "BvArray")):
+            if arrt not in (A, ("N", "BvArray"), ("N", "WUPairs")):
                 raise Unsupported("`iter_mut()` over %r" % (arrt,))
-            self.itermut = dict(saved_itermut, **{var: (itermut, cnt)})
+            if isinstance(var, tuple):
+                comp = [self.env[q[1]][0] for q in var[1]]
+                self.itermut = dict(saved_itermut, **{q[1]: (itermut, cnt, comp) for q in var[1] if q[1] != "_"})
+            else:
+                self.itermut = dict(saved_itermut, **{var: (itermut, cnt)})
         nb = self.norm(body)
         if nb[2] is not None:
             raise Unsupported("loop body ending in a value")
